@@ -7,6 +7,7 @@ pub mod c07;
 pub mod c08;
 pub mod c11;
 pub mod c17;
+pub mod problems;
 pub mod c18;
 pub mod roundtrip;
 
@@ -55,6 +56,19 @@ pub fn property(id: &str) -> Option<PropertyRun> {
             parts: vec![Box::new(Campaign(c08::C08))],
             assumptions: vec!["exact mode, finite extents; only definite verdicts are compared".into()],
         },
+        "C09" => PropertyRun {
+            id: id.into(),
+            parts: vec![
+                Box::new(Campaign(problems::C09 { known_shapes: false })),
+                Box::new(Campaign(problems::C09 { known_shapes: true })),
+            ],
+            assumptions: vec!["the checker's strict TFF reader and type checker are the oracle (acceptance cross-checked against tests/examples/tptp4X_linux)".into()],
+        },
+        "C12" => PropertyRun {
+            id: id.into(),
+            parts: vec![Box::new(Campaign(problems::C12)), Box::new(Campaign(problems::Preamble))],
+            assumptions: vec!["quantifiers over $int, general and symbol are sampled on windows, as the property states".into(), "a constant x__s is read as the symbol x when x is a 0-ary predicate of the problem (anthem's documented renaming)".into()],
+        },
         "C11" => PropertyRun {
             id: id.into(),
             parts: vec![Box::new(Campaign(c11::Analyses))],
@@ -79,4 +93,4 @@ pub fn property(id: &str) -> Option<PropertyRun> {
     })
 }
 
-pub const ALL: &[&str] = &["C01", "C03", "C04", "C05", "C06", "C07", "C08", "C11", "C14", "C15", "C17", "C18"];
+pub const ALL: &[&str] = &["C01", "C03", "C04", "C05", "C06", "C07", "C08", "C09", "C11", "C12", "C14", "C15", "C17", "C18"];
